@@ -539,6 +539,21 @@ def compile_basic_annotation(compiler, expr, root, target, ann):
     return compile_assign(compiler, ann, target, None)
 
 
+def _mentions_name(compiler, result, target):
+    """Does the code of `result` refer to the variable `target`, other than
+    through `result`'s own temporary variables? If so, the temporaries can't
+    be renamed to `target`: an intermediate assignment, as for the value of
+    `(setv x (or 0 (do …) x))` or `(setv x (try 5 (finally (print x))))`,
+    would be visible to the later read."""
+    probe = compiler.scope.assign(ast.Name(id=mangle(target), ctx=ast.Store()))
+    temps = {id(v) for v in result.temp_variables}
+    return any(
+        isinstance(node, ast.Name) and node.id == probe.id and id(node) not in temps
+        for top in [*result.stmts, *([result._expr] if result._expr else [])]
+        for node in ast.walk(top)
+    )
+
+
 def compile_assign(
     compiler, ann, target, value, *, is_assignment_expr=False, chained=False, let_scope=None
 ):
@@ -554,7 +569,11 @@ def compile_assign(
         if let_scope:
             target = let_scope.add(target)
 
-    if result.temp_variables and isinstance(target, Symbol):
+    if (
+        result.temp_variables
+        and isinstance(target, Symbol)
+        and not _mentions_name(compiler, result, compiler._nonconst(target))
+    ):
         result.rename(compiler, compiler._nonconst(target))
         if not is_assignment_expr:
             # Throw away .expr to ensure that (setv ...) returns None.
